@@ -9,7 +9,7 @@
    are not negative.  The theorems are about the code WITH the F20 repair (AddChunk refuses a
    rejected sender). *)
 From Coq Require Import String List ZArith NArith Bool.
-From TM Require Import Common.Hex Generated.Consts C14.Model C14.Proofs.
+From TM Require Import Common.Hex Generated.Consts C14.Model C14.Spec C14.Proofs.
 Import ListNotations.
 Open Scope Z_scope.
 
@@ -204,6 +204,83 @@ Theorem C14_state_fields_light_verified : forall lc cp initial disc ties evs st 
 Proof. exact state_fields_light_verified. Qed.
 Print Assumptions C14_state_fields_light_verified.
 
+(* ---- the bootstrapped state against the specification of Spec.v ---- *)
+
+(* Spec.v says, independently of stateprovider.go, which verified block every field of the state
+   after block h comes from: LastBlockHeight/ID/Time and LastValidators from h; Version.Consensus,
+   AppHash, LastResultsHash, Validators, the consensus params (by the ConsensusHash header h+1
+   commits to) and LastHeightConsensusParamsChanged = h+1 from h+1; NextValidators and
+   LastHeightValidatorsChanged = h+2 from h+2.  The model of State() as the code is meets it when
+   the consensus_params server labels its answer with the height it was asked for ... *)
+Theorem C14_state_meets_spec : forall lc rpc initial h st,
+  light_client_ok lc -> 0 <= h < 2 ^ 64 ->
+  (forall label ph, rpc (h + 1) = Some (label, ph) -> label = h + 1) ->
+  lc_state lc (lrpc_params lc rpc) initial h = ROk st -> state_spec lc initial h st.
+Proof. exact state_meets_spec. Qed.
+Print Assumptions C14_state_meets_spec.
+
+(* ... and with the F66 repair (State() compares the params it got with the ConsensusHash of the
+   block h+1 it verified) for EVERY consensus_params oracle. *)
+Theorem C14_state_repaired_meets_spec : forall lc cp initial h st,
+  light_client_ok lc -> 0 <= h < 2 ^ 64 ->
+  lc_state_fixed lc cp initial h = ROk st -> state_spec lc initial h st.
+Proof. exact state_fixed_meets_spec. Qed.
+Print Assumptions C14_state_repaired_meets_spec.
+
+Theorem C14_apphash_meets_spec : forall lc h ah,
+  light_client_ok lc -> 0 <= h < 2 ^ 64 -> lc_apphash lc h = ROk ah -> apphash_spec lc h ah.
+Proof. exact apphash_meets_spec. Qed.
+Print Assumptions C14_apphash_meets_spec.
+
+Theorem C14_commit_meets_spec : forall lc h cm,
+  light_client_ok lc -> 0 <= h < 2 ^ 64 -> lc_commit lc h = ROk cm -> commit_spec lc h cm.
+Proof. exact commit_meets_spec. Qed.
+Print Assumptions C14_commit_meets_spec.
+
+(* what the harness evaluates on the real provider's answers (clauses 14, 15, 17) decides the
+   specification *)
+Theorem C14_spec_decided : forall lc initial h st ah cm,
+  (spec_state_b lc initial h st = true <-> state_spec lc initial h st) /\
+  (spec_apphash_b lc h ah = true <-> apphash_spec lc h ah) /\
+  (spec_commit_b lc h cm = true <-> commit_spec lc h cm).
+Proof.
+  intros. split; [apply spec_state_b_iff|]. split; [apply spec_apphash_b_iff|apply spec_commit_b_iff].
+Qed.
+Print Assumptions C14_spec_decided.
+
+(* verifyApp passes exactly when the application reports the trusted hash byte for byte (an empty
+   trusted hash is matched by the empty report only), the snapshot height and the state's app
+   version - for snapshot heights a light client can vouch for and int64 reports. *)
+Theorem C14_verify_app_exact : forall s ah st appv hash height,
+  0 < sn_height s < 2 ^ 63 -> - 2 ^ 63 <= height < 2 ^ 63 ->
+  (verify_app s ah st appv hash height = None <->
+   app_agrees (sn_height s) ah st appv hash height).
+Proof. exact verify_app_exact. Qed.
+Print Assumptions C14_verify_app_exact.
+
+(* End to end, over all histories: whatever SyncAny returns with the light-client provider is the
+   specified state / commit of the restored snapshot's height, and the application was offered
+   and has reported the specified app hash. *)
+Theorem C14_restored_state_meets_spec : forall lc rpc initial disc ties evs st cm,
+  light_client_ok lc -> honest_labels rpc -> Forall ev_ok evs ->
+  s_mode (reach (lc_provider lc (lrpc_params lc rpc) initial) disc ties evs) = MDone (OOk st cm) ->
+  exists s ah height, let h := sn_height s in
+    In (COffer s ah) (s_journal (reach (lc_provider lc (lrpc_params lc rpc) initial) disc ties evs)) /\
+    state_spec lc initial h st /\ commit_spec lc h cm /\ apphash_spec lc h ah /\
+    In (EInfoReply (st_vapp st) ah height) evs /\ u64 height = h.
+Proof. exact restored_state_meets_spec. Qed.
+Print Assumptions C14_restored_state_meets_spec.
+
+Theorem C14_restored_state_meets_spec_repaired : forall lc cp initial disc ties evs st cm,
+  light_client_ok lc -> Forall ev_ok evs ->
+  s_mode (reach (lc_provider_fixed lc cp initial) disc ties evs) = MDone (OOk st cm) ->
+  exists s ah height, let h := sn_height s in
+    In (COffer s ah) (s_journal (reach (lc_provider_fixed lc cp initial) disc ties evs)) /\
+    state_spec lc initial h st /\ commit_spec lc h cm /\ apphash_spec lc h ah /\
+    In (EInfoReply (st_vapp st) ah height) evs /\ u64 height = h.
+Proof. exact restored_state_meets_spec_fixed. Qed.
+Print Assumptions C14_restored_state_meets_spec_repaired.
+
 (* Two arbitrary histories (different peers, chunks, verdicts) that restore a snapshot of the
    same height return the same state, commit and offered app hash. *)
 Theorem C14_noninterference : forall pv disc1 disc2 ties1 ties2 evs1 evs2 st1 cm1 st2 cm2,
@@ -269,7 +346,7 @@ Print Assumptions C14_peer_cap.
 (* ------------------------------------------------------------------ non-vacuity *)
 
 Definition ex_snap : snapshot := mkSnap 3 1 2 [7%N] [].
-Definition ex_lb (h : Z) : lightblock := mkLB h (100 + h) 11 5 [160%N; Z.to_N h] [] [Z.to_N h] [Z.to_N (50 + h)] [9%N].
+Definition ex_lb (h : Z) : lightblock := mkLB h (100 + h) 11 5 [160%N; Z.to_N h] [] [Z.to_N h] [Z.to_N (50 + h)] [9%N] [1%N].
 Definition ex_lc (h : Z) : res lightblock := if (0 <? h) && (h <=? 9) then ROk (ex_lb h) else RFail.
 Definition ex_pv : provider := lc_provider ex_lc (fun _ => Some [1%N]) 0.
 
@@ -327,3 +404,45 @@ Proof. split; [vm_compute; reflexivity|]. eexists; eexists. repeat split; vm_com
    this cannot pass with the light-client provider) *)
 Example C14_uint64_height_wraps : u64 (-1) = 2 ^ 64 - 1.
 Proof. vm_compute. reflexivity. Qed.
+
+(* ---- Spec.v: non-vacuity, and the lying-label witness (F66) ---- *)
+
+(* a chain whose consensus hash, validator set, app version, app hash differ at every height *)
+Definition sp_lb (h : Z) : lightblock :=
+  mkLB h (100 + h) 11 (20 + h) [160%N; Z.to_N h] [176%N; Z.to_N h] [Z.to_N h] [Z.to_N (50 + h)]
+       [9%N; Z.to_N h] [1%N; Z.to_N h].
+Definition sp_lc (h : Z) : res lightblock := if (0 <? h) && (h <=? 9) then ROk (sp_lb h) else RFail.
+Definition sp_honest (req : Z) : option (Z * bytes) := Some (req, [1%N; Z.to_N req]).
+(* answers consensus_params(req) with the genuine params of height req - 1, labelled req - 1 *)
+Definition sp_liar (req : Z) : option (Z * bytes) := Some (req - 1, [1%N; Z.to_N (req - 1)]).
+
+Example C14_state_spec_nonvacuous :
+  light_client_ok sp_lc /\ honest_labels sp_honest /\
+  (exists st, lc_state sp_lc (lrpc_params sp_lc sp_honest) 0 3 = ROk st /\
+              spec_state_b sp_lc 0 3 st = true /\ st_params st = [1%N; 4%N] /\
+              st_vals st = [9%N; 4%N] /\ st_nextvals st = [9%N; 5%N] /\ st_lastvals st = [9%N; 3%N] /\
+              lc_state_fixed sp_lc (lrpc_params sp_lc sp_honest) 0 3 = ROk st).
+Proof.
+  split.
+  - intros z b. unfold sp_lc. destruct (0 <? z) eqn:E1; cbn [andb]; [|discriminate].
+    destruct (z <=? 9); [|discriminate]. intros E; injection E as <-. apply Z.ltb_lt in E1. auto.
+  - split; [intros req label ph E; injection E as <- _; reflexivity|].
+    eexists. repeat split; vm_compute; reflexivity.
+Qed.
+
+(* F66: the unrepaired State() accepts the params of height 3 for the state after block 3 (which
+   needs those of height 4) from a server that labels them honestly as "height 3": the
+   specification fails; the repaired State() refuses *)
+Example C14_lying_label_refuted :
+  (exists st, lc_state sp_lc (lrpc_params sp_lc sp_liar) 0 3 = ROk st /\
+              st_params st = [1%N; 3%N] /\ spec_state_b sp_lc 0 3 st = false) /\
+  lc_state_fixed sp_lc (lrpc_params sp_lc sp_liar) 0 3 = RFail.
+Proof. split; [eexists; repeat split; vm_compute; reflexivity | vm_compute; reflexivity]. Qed.
+
+(* verifyApp with an empty trusted hash: a non-empty report is refused, the empty one accepted *)
+Example C14_verify_app_empty_trusted_hash :
+  verify_app ex_snap [] (mkState 1 11 5 3 0 [] [] [] [] [] [] 5 [] 4) 5 [238%N] 3 = Some 6 /\
+  verify_app ex_snap [] (mkState 1 11 5 3 0 [] [] [] [] [] [] 5 [] 4) 5 [] 3 = None /\
+  verify_app ex_snap [160%N] (mkState 1 11 5 3 0 [] [] [] [] [] [] 5 [] 4) 5 [] 3 = Some 6 /\
+  verify_app ex_snap [160%N] (mkState 1 11 5 3 0 [] [] [] [] [] [] 5 [] 4) 5 [160%N; 0%N] 3 = Some 6.
+Proof. repeat split; vm_compute; reflexivity. Qed.
